@@ -11,6 +11,7 @@
 -/
 import PolyVerif.Props.C12
 import PolyVerif.Props.C11
+import PolyVerif.Lemmas.GraphEval
 
 namespace PolyVerif
 namespace C12
@@ -18,174 +19,37 @@ open GraphIO
 
 variable {V J W : Type}
 
-/-- what evaluation needs beyond the saved graph: per node TYPE its `Process()` as a function of the wiring and of the
-    pulled input values (C11's `SNode.fn` — deterministic because it is a function), which inputs it pulls
-    (`SNode.reads`), the value a parameter node of a type outputs for its payload, and the content of a cache nobody
-    has filled yet -/
-structure Procs (V W : Type) where
-  proc : TyName → List (Option Nat) → List (List Nat) → List (Option W) → W
-  reads : TyName → List (Option W) → Bool
-  paramVal : TyName → Option V → W
-  idle : W
-
-/-- the number of node `id`: its position in the node list -/
-def idxOf (g : Graph V) (id : Id) : Nat := g.nodes.findIdx (fun n => n.id = id)
-
-/-- one node as C11 sees it in a FRESH application -/
-def absNode (P : Procs V W) (E : Env V J) (g : Graph V) (n : GraphIO.Node V) : Nodes.Node W :=
-  match E.types n.ty with
-  | none => .param P.idle 0
-  | some T =>
-    match T.param with
-    | some _ => .param (P.paramVal n.ty (n.par.bind Param.value)) 0
-    | none =>
-      .struct { fn := P.proc n.ty, reads := P.reads n.ty,
-                scalars := T.scal.map (fun p => (n.scal p.1).map (fun r => idxOf g r.node)),
-                arrays := T.arrs.map (fun p => (n.arrs p.1).map (fun r => idxOf g r.node)),
-                cache := P.idle, version := 0, remembered := none, flag := true }
-
-/-- the saved-graph model seen as a C11 graph (a total map; positions past the end are idle parameters) -/
-def absGraph (P : Procs V W) (E : Env V J) (g : Graph V) : Nodes.Graph W := fun i =>
-  match g.nodes[i]? with
-  | some n => absNode P E g n
-  | none => .param P.idle 0
-
-/-- two runtime nodes with the same static content: parameter value, resp. processor and wiring (array order included);
-    caches, versions, remembered versions and flags may differ -/
-def staticEq : Nodes.Node W → Nodes.Node W → Prop
-  | .param x _, .param y _ => x = y
-  | .struct s, .struct t => s.fn = t.fn ∧ s.reads = t.reads ∧ s.scalars = t.scalars ∧ s.arrays = t.arrays
-  | _, _ => False
-
-/-- the runtime state `G` of an application HOLDS the graph `H`: node by node the same static content -/
-def HoldsGraph (G H : Nodes.Graph W) : Prop := ∀ i, staticEq (G i) (H i)
-
-theorem specPull_congr_aux {ev ev' : Nat → W} (reads : List (Option W) → Bool) (ds : List Nat) (acc : List (Option W))
-    (h : ∀ d ∈ ds, ev d = ev' d) : Nodes.specPull ev reads ds acc = Nodes.specPull ev' reads ds acc := by
-  induction ds generalizing acc with
-  | nil => rfl
-  | cons d ds ih =>
-    simp only [Nodes.specPull]
-    rw [h d List.mem_cons_self]
-    split <;> exact ih _ (fun d' hd' => h d' (List.mem_cons_of_mem _ hd'))
-
-theorem ranked_of_holds_aux {F : Nat} {rank : Nat → Nat} {G H : Nodes.Graph W} (hh : HoldsGraph G H)
-    (hr : Nodes.Ranked rank F H) : Nodes.Ranked rank F G := by
-  refine ⟨hr.1, ?_⟩
-  intro i s hs d hd
-  have := hh i
-  rw [hs] at this
-  cases hH : H i with
-  | param x v => simp [hH, staticEq] at this
-  | struct t =>
-    simp only [hH, staticEq] at this
-    apply hr.2 i t hH d
-    simpa [Nodes.SNode.deps, this.2.2.1, this.2.2.2] using hd
-
-/-- the from-scratch value depends only on the static content -/
-theorem spec_static_aux {F : Nat} {rank : Nat → Nat} {G H : Nodes.Graph W} (hh : HoldsGraph G H)
-    (hr : Nodes.Ranked rank F H) (i : Nat) : Nodes.Spec F G i = Nodes.Spec F H i := by
-  have hrG := ranked_of_holds_aux hh hr
-  induction hk : rank i using Nat.strongRecOn generalizing i with
-  | _ k ih =>
-    rw [Nodes.Spec_eq G hrG i, Nodes.Spec_eq H hr i]
-    have := hh i
-    cases hG : G i with
-    | param x v =>
-      cases hH : H i with
-      | param y w => simpa [hG, hH, staticEq] using this
-      | struct t => simp [hG, hH, staticEq] at this
-    | struct s =>
-      cases hH : H i with
-      | param y w => simp [hG, hH, staticEq] at this
-      | struct t =>
-        simp only [hG, hH, staticEq] at this
-        obtain ⟨h1, h2, h3, h4⟩ := this
-        have hdeps : s.deps = t.deps := by simp [Nodes.SNode.deps, h3, h4]
-        simp only
-        rw [h1, h2, h3, h4, hdeps]
-        congr 1
-        apply specPull_congr_aux
-        intro d hd
-        exact ih (rank d) (hk ▸ hr.2 i t hH d hd) d rfl
-
-theorem findIdx_map_aux {α β : Type} (f : α → β) (p : β → Bool) (l : List α) :
-    (l.map f).findIdx p = l.findIdx (p ∘ f) := by
-  induction l with
-  | nil => rfl
-  | cons a as ih => simp [List.findIdx_cons, ih]
-
-/-- `norm` (what a reload changes) is invisible to evaluation -/
-theorem absGraph_norm (P : Procs V W) (E : Env V J) (g : Graph V) : absGraph P E g.norm = absGraph P E g := by
-  have hidx : ∀ id, idxOf g.norm id = idxOf g id := by
-    intro id
-    simp only [idxOf, Graph.norm, findIdx_map_aux]
-    congr 1
-  funext i
-  simp only [absGraph, Graph.norm, List.getElem?_map]
-  cases hn : g.nodes[i]? with
-  | none => rfl
-  | some n =>
-    simp only [Option.map_some, absNode, Node.norm]
-    cases hT : E.types n.ty with
-    | none => rfl
-    | some T =>
-      simp only
-      cases hk : T.param with
-      | some k =>
-        simp only
-        congr 2
-        cases n.par with
-        | none => rfl
-        | some p => simp [Param.norm_value]
-      | none =>
-        simp only
-        congr 2
-        · congr 1; funext p; congr 1; funext r; exact hidx r.node
-        · congr 1; funext p; congr 1; funext r; exact hidx r.node
-
-theorem absGraph_init_aux {F : Nat} (P : Procs V W) (E : Env V J) (g : Graph V)
-    (hac : Nodes.Acyclic F (absGraph P E g)) : Nodes.Init F (absGraph P E g) := by
-  refine ⟨hac, ?_⟩
-  intro i s hs
-  simp only [absGraph] at hs
-  cases hn : g.nodes[i]? with
-  | none => simp [hn] at hs
-  | some n =>
-    simp only [hn, absNode] at hs
-    split at hs
-    · cases hs
-    · split at hs
-      · cases hs
-      · cases hs; rfl
-
-/-- **Artifacts.**  Hypotheses, all named:
-    * `hE`, `hw`, `hc`, `hf` — those of `decode_encode` (registered types sane, the graph well-formed — every graph
-      reachable by editing is, `edit_history_wf` —, the comparator fit, at most one File/Image payload);
-    * DETERMINISTIC PROCESSORS — `P : Procs V W`: each node type's `Process()` is a function of its wiring and inputs;
-    * ACYCLIC — `hac : Acyclic F (absGraph P E g)` (the Go API has no cycle check and a cycle makes evaluation diverge);
-    * the ORIGINAL application — any C11 runtime state reached from a never-processed state `g0` by any history `ops`
-      of parameter updates, re-wirings and reads (`h0`, `hv`) that HOLDS the edited graph `g` (`hG`: same parameter
-      values, processors and wiring; arbitrary caches, versions and flags).
-    Then loading the saved file into a fresh application succeeds; that application is in a never-processed state; and
-    reading ANY node `i` there — in particular a producer — returns the from-scratch value `Spec` of the edited graph,
-    which is also exactly what the original application returns for it. -/
+/-- **Artifacts**, relative to a runtime state that holds the edited graph.  Hypotheses, all named:
+    * `hE`, `hw`, `hc`, `hf` — those of `decode_encode`;
+    * DETERMINISTIC PROCESSORS — `P : Procs V W` (functions of the wiring shape and the pulled values);
+    * the ORIGINAL application — a C11 runtime state reached from a never-processed state `g0` by any history `ops`
+      of C11 calls that keeps the graph ACYCLIC (`h0`, `hv`: the Go API has no cycle check and a cycle makes evaluation
+      diverge) and that HOLDS the edited graph `g` under some numbering `σ` of its nodes (`hG`;
+      `edit_simulation` below shows that the runtime reached by the editing operations does).
+    Then loading the saved file into a fresh application succeeds, that application is never-processed and acyclic,
+    and reading ANY node `n` of the graph — a producer in particular — returns in the reloaded application exactly what
+    it returns in the original one: the from-scratch value of the edited graph. -/
 theorem reload_same_artifacts {E : Env V J} (hE : EnvOK E) {cmp : Name → Name → Bool} {g : Graph V} (hw : WF E g)
     (hc : ∀ n ∈ g.nodes, ∀ T, E.types n.ty = some T → CmpOK cmp T n) (hf : FilePayloadLast E g)
-    (P : Procs V W) {F : Nat} (hac : Nodes.Acyclic F (absGraph P E g))
-    (g0 : Nodes.Graph W) (h0 : Nodes.Init F g0) (ops : List (Nodes.Op W)) (hv : Nodes.Valid F g0 ops)
-    (hG : HoldsGraph (Nodes.run F g0 ops).1 (absGraph P E g)) (i : Nat) :
+    (P : Procs V W) {F : Nat} (g0 : Nodes.Graph W) (h0 : Nodes.Init F g0) (ops : List (Nodes.Op W))
+    (hv : Nodes.Valid F g0 ops) (σ : Id → Nat) (hG : Holds P E σ (Nodes.run F g0 ops).1 g)
+    (n : GraphIO.Node V) (hn : n ∈ g.nodes) :
     ∃ g', decode E Hdr.empty (encode E cmp g) = .ok g' ∧ Nodes.Init F (absGraph P E g') ∧
-      Nodes.val (Nodes.step F (absGraph P E g') (.read i)).1 i = Nodes.Spec F (absGraph P E g) i ∧
-      Nodes.val (Nodes.step F (Nodes.run F g0 ops).1 (.read i)).1 i = Nodes.Spec F (absGraph P E g) i := by
+      Nodes.val (Nodes.step F (absGraph P E g') (.read (idxOf g' n.id))).1 (idxOf g' n.id) =
+        Nodes.Spec F (absGraph P E g) (idxOf g n.id) ∧
+      Nodes.val (Nodes.step F (Nodes.run F g0 ops).1 (.read (σ n.id))).1 (σ n.id) =
+        Nodes.Spec F (absGraph P E g) (idxOf g n.id) := by
+  obtain ⟨rank, hr⟩ := (C11.reachable_inv g0 h0 ops hv).wf
+  have hr2 := absGraph_ranked hw hG hr
+  have hinit : Nodes.Init F (absGraph P E g) := ⟨⟨_, hr2⟩, absGraph_unprocessed P E g⟩
+  have hidx : idxOf g.norm n.id = idxOf g n.id := by
+    simp only [idxOf, Graph.norm, findIdx_map_aux]; congr 1
   refine ⟨g.norm, decode_encode hE hw hc hf, ?_, ?_, ?_⟩
-  · rw [absGraph_norm]; exact absGraph_init_aux P E g hac
-  · have h := C11.read_fresh (absGraph P E g) (absGraph_init_aux P E g hac) [] trivial i
-    rw [absGraph_norm]
-    exact h
-  · obtain ⟨rank, hr⟩ := hac
-    rw [C11.read_fresh g0 h0 ops hv i]
-    exact spec_static_aux hG hr i
+  · rw [absGraph_norm]; exact hinit
+  · rw [absGraph_norm, hidx]
+    exact C11.read_fresh (absGraph P E g) hinit [] trivial _
+  · rw [C11.read_fresh g0 h0 ops hv (σ n.id)]
+    exact spec_corr hw hG (absGraph_holds P E hw.nodup) hr hr2 n hn
 
 /-! ### an instance: a text producer over a title and an ordered array of parts -/
 
@@ -209,7 +73,7 @@ def aGraph : Graph Nat :=
 /-- the artifact of `T` is the list of the values it pulled, in dependency order (title, then the parts in order) -/
 def aProcs : Procs Nat (List Nat) :=
   { proc := fun _ _ _ vals => vals.flatMap (fun v => v.getD []),
-    reads := fun _ _ => true,
+    next := fun _ _ _ es => Nodes.nextAll es,
     paramVal := fun _ v => [v.getD 0],
     idle := [] }
 
@@ -247,15 +111,11 @@ theorem aGraph_ranked : Nodes.Ranked aRank 2 (absGraph aProcs aEnv aGraph) := by
 /-- the hypotheses of `reload_same_artifacts` are satisfiable with a non-trivial graph (the original application being,
     e.g., the never-read one) and the common artifact is the title followed by the parts IN ORDER -/
 example :
-    Nodes.Acyclic 2 (absGraph aProcs aEnv aGraph) ∧ FilePayloadLast aEnv aGraph ∧ aGraph.prods = [("out.txt", ⟨"Node-0", "Out"⟩)] ∧
-    HoldsGraph (Nodes.run 2 (absGraph aProcs aEnv aGraph) []).1 (absGraph aProcs aEnv aGraph) ∧
+    Nodes.Init 2 (absGraph aProcs aEnv aGraph) ∧ FilePayloadLast aEnv aGraph ∧ aGraph.prods = [("out.txt", ⟨"Node-0", "Out"⟩)] ∧
+    Holds aProcs aEnv (idxOf aGraph) (Nodes.run 2 (absGraph aProcs aEnv aGraph) []).1 aGraph ∧
     Nodes.val (Nodes.step 2 (absGraph aProcs aEnv aGraph) (.read (idxOf aGraph "Node-0"))).1 (idxOf aGraph "Node-0") = [5, 6, 7] := by
-  refine ⟨⟨aRank, aGraph_ranked⟩, by decide, by decide, ?_, by decide⟩
-  intro i
-  show staticEq (absGraph aProcs aEnv aGraph i) (absGraph aProcs aEnv aGraph i)
-  cases absGraph aProcs aEnv aGraph i with
-  | param x v => rfl
-  | struct s => exact ⟨rfl, rfl, rfl, rfl⟩
+  refine ⟨⟨⟨aRank, aGraph_ranked⟩, absGraph_unprocessed _ _ _⟩, by decide, by decide, ?_, by decide⟩
+  exact absGraph_holds _ _ (by decide)
 
 end C12
 end PolyVerif
